@@ -21,7 +21,9 @@
      7  Read under a mask fails on a message the plain code reads                        (oracle)
     10  nil mask: Read differs from code generated without the option                    (oracle)
     11  a filtered non-required field is on the wire / a filtered required field is not  (oracle)
-    12  a plain peer cannot decode what Write emitted under the mask                     (oracle) *)
+    12  a plain peer cannot decode what Write emitted under the mask                     (oracle)
+    13  a mask set on a non-root object (root mask nil): with field_mask_halfway the sub object
+        is not its restriction / without the option the mask has an effect               (oracle) *)
 From Coq Require Import List ZArith Bool NArith Lia.
 From Verif Require Import Base.Bytes Base.BE Wire.TType Wire.WVal Wire.Codec Wire.Schema Wire.Value Wire.Std
   Wire.Masked Wire.MaskedHalfway Wire.MaskedOwn Corr.C02.
@@ -44,7 +46,7 @@ Inductive case :=
          (plain_err : obs_err) (plain_dump : value)
 (* a mask set by the user on the sub object reached through the struct-typed fields [path] *)
 | CMOwn (sname : bytes) (cfg : mcfg) (black : bool) (paths : option (list bytes))
-        (path : list Z) (black2 : bool) (paths2 : option (list bytes))
+        (path : list Z) (black2 : bool) (paths2 : option (list bytes)) (ps2 : list (list Mask.Spec.pseg))
         (v : value) (omaskerr : bool) (oerr : obs_err) (obytes : bytes).
 
 Definition token_eqb (a b : Mask.Path.token) : bool :=
@@ -124,6 +126,18 @@ Fixpoint struct_at (e : env) (s : sschema) (path : list Z) : option sschema :=
                   | TRef n => match find_struct e n with Some s' => struct_at e s' rest | None => None end
                   | _ => None end
       | None => None end
+  end.
+
+(* the slot a path of field ids leads to *)
+Fixpoint value_at (path : list Z) (v : value) : option value :=
+  match path with
+  | [] => Some v
+  | id :: rest =>
+      match v with
+      | VStruct fs => match find (fun p => fst p =? id) fs with
+                      | Some p => value_at rest (snd p)
+                      | None => None end
+      | _ => None end
   end.
 
 Definition check (e : env) (c : case) : list N :=
@@ -251,7 +265,7 @@ Definition check (e : env) (c : case) : list N :=
                | Some _ => [] end)
           end
       end
-  | CMOwn sname cfg black paths path black2 paths2 v omaskerr oerr obytes =>
+  | CMOwn sname cfg black paths path black2 paths2 ps2 v omaskerr oerr obytes =>
       match find_struct e sname with
       | None => [8%N]
       | Some s =>
@@ -274,7 +288,28 @@ Definition check (e : env) (c : case) : list N :=
                    end) ++
                   (match oerr with
                    | OOk => match dec_full obytes with Some (WStruct _) => [] | _ => [2%N] end
-                   | _ => [] end)
+                   | _ => [] end) ++
+                  (* oracle, root mask nil: with field_mask_halfway the sub object arrives restricted to
+                     ITS path set (on the domain), without the option its mask has no effect *)
+                  (match paths, oerr, dec_full obytes with
+                   | None, OOk, Some w =>
+                       if wt e s v then
+                         match read_new e s w with
+                         | Ok v' =>
+                             if halfway cfg then
+                               match paths2 with
+                               | Some strs2 =>
+                                   match domain_paths e s2 black2 strs2 ps2, value_at path v', value_at path v with
+                                   | Some psn, Some sv', Some sv =>
+                                       if veq_mod sv' (restrict_ps black2 (wmode cfg) e psn (TRef (s_name s2)) sv)
+                                       then [] else [13%N]
+                                   | Some _, _, _ => [13%N]
+                                   | None, _, _ => [] end
+                               | None => if veq_mod v' (norm_struct e s v) then [] else [13%N] end
+                             else if veq_mod v' (norm_struct e s v) then [] else [13%N]
+                         | Err _ => [13%N] end
+                       else []
+                   | _, _, _ => [] end)
               | _, _ => if omaskerr then [] else [1%N]
               end
           end
